@@ -13,6 +13,14 @@ func genFamily(c *Config, r *rand.Rand) {
 		genDrain(c, r)
 	case "hostile":
 		genHostile(c, r)
+	case "recover":
+		genRecover(c, r)
+	case "force":
+		genForce(c, r)
+	case "control":
+		genControl(c, r)
+	case "reconf":
+		genReconf(c, r)
 	default:
 		genPipe(c, r)
 	}
